@@ -7,20 +7,39 @@ func init() {
 	vpRegister("VPH_C25_setattr", VPH_C25_setattr)
 }
 
-func vpMaxSizeEnv(m int64, size int64, atRuntime bool) (*vpEnv, *vpNode, uint64) {
+// vpMaxSizeEnv builds a server whose MaxFileSize is m, installed in one of the ways a limit comes
+// into force: 0 at construction, 1 by UpdatePolicyOptions, 2 by UpdateExportOptions on the
+// GetExportOptions snapshot, 3 at construction followed by an unrelated read-modify-write of the
+// options (GetExportOptions, change another field, UpdateExportOptions) - the limit must survive it.
+func vpMaxSizeEnv(m int64, size int64, how int) (*vpEnv, *vpNode, uint64) {
 	fs := vpNewFS()
 	fs.addDir("/d")
 	n := fs.addFile("/d/x", 0)
 	n.size = size
 	var env *vpEnv
-	if atRuntime {
+	switch how {
+	case 1:
 		env = vpServer(fs, ExportOptions{TransferSize: 8})
 		p := *env.nfs.policy.Load()
 		p.MaxFileSize = m
 		if env.nfs.UpdatePolicyOptions(p) != nil {
 			vpAssume(false)
 		}
-	} else {
+	case 2:
+		env = vpServer(fs, ExportOptions{TransferSize: 8})
+		o := env.nfs.GetExportOptions()
+		o.MaxFileSize = m
+		if env.nfs.UpdateExportOptions(o) != nil {
+			vpAssume(false)
+		}
+	case 3:
+		env = vpServer(fs, ExportOptions{TransferSize: 8, MaxFileSize: m})
+		o := env.nfs.GetExportOptions()
+		o.AttrCacheSize = 123
+		if env.nfs.UpdateExportOptions(o) != nil {
+			vpAssume(false)
+		}
+	default:
 		env = vpServer(fs, ExportOptions{TransferSize: 8, MaxFileSize: m})
 	}
 	return env, n, env.handleFor("/d/x")
@@ -31,8 +50,8 @@ func VPH_C25_write() {
 	vpAssume(m > 0)
 	size0 := vpI64("size")
 	vpAssume(vpAnd(size0 >= 0, size0 <= m)) // the file starts within the limit
-	env, n, h := vpMaxSizeEnv(m, size0, vpBool("limit-at-runtime"))
-	twin, tn, th := vpMaxSizeEnv(0, size0, false) // the same server without a limit
+	env, n, h := vpMaxSizeEnv(m, size0, vpChoose("limit-installed", 0, 3))
+	twin, tn, th := vpMaxSizeEnv(0, size0, 0) // the same server without a limit
 	off := vpU64("offset")
 	cnt := vpChoose("count", 0, 4)
 	data := vpBytes("data", cnt)
@@ -72,7 +91,7 @@ func VPH_C25_setattr() {
 	vpAssume(m > 0)
 	size0 := vpI64("size")
 	vpAssume(vpAnd(size0 >= 0, size0 <= m))
-	env, n, h := vpMaxSizeEnv(m, size0, vpBool("limit-at-runtime"))
+	env, n, h := vpMaxSizeEnv(m, size0, vpChoose("limit-installed", 0, 3))
 	newSize := vpU64("newsize")
 	s := &vpSattr{setSize: true, size: newSize}
 	var b vpBuf
